@@ -7,6 +7,7 @@ import (
 	"runtime"
 	"sort"
 	"strconv"
+	"strings"
 	"time"
 
 	"verif/mc/engine"
@@ -43,6 +44,15 @@ func RunFamily(f *Family, o RunOpts) int {
 		o.MaxStates = 4000
 	}
 	scns := f.Scenarios(o.Tier)
+	if sub := os.Getenv("VERIF_SCENARIO"); sub != "" { // debugging aid: restrict to matching scenarios
+		var keep []Scenario
+		for _, s := range scns {
+			if strings.Contains(s.Name, sub) {
+				keep = append(keep, s)
+			}
+		}
+		scns = keep
+	}
 	idx, n, isWorker := engine.WorkerShard()
 	if isWorker {
 		budget := engine.NewBudget(o.Budget)
